@@ -168,6 +168,20 @@ impl Ctx {
                     }
                     .into()
                 }
+                "import" => {
+                    // bp.import(from![<module>]) invoked from the root module of verif_app
+                    let module = op["module"].as_str().expect("module").to_string();
+                    s::Import {
+                        sources: s::Sources::Some(vec![module]),
+                        relative_to: "verif_app".into(),
+                        created_at: s::CreatedAt {
+                            package_name: "verif_app".into(),
+                            package_version: "0.1.0".into(),
+                        },
+                        registered_at: self.loc(),
+                    }
+                    .into()
+                }
                 "nest" => {
                     let nested_at = self.loc();
                     let path_prefix = op.get("prefix").and_then(|p| p.as_str()).map(|p| s::PathPrefix {
